@@ -151,7 +151,7 @@ def gen_spec(rng: random.Random, *, allow_wait: bool = True, allow_collect: bool
 # targeted families (the general generator rarely lines these up)
 
 
-def gen_fanin_spec(rng: random.Random) -> dict:
+def gen_fanin_spec(rng: random.Random, raise_incomplete: bool = False) -> dict:
     """start fans N events into a collecting step with few workers: queued events,
     collect re-runs on stale snapshots, out-of-order completions"""
     n = rng.randint(3, 8)
@@ -175,7 +175,20 @@ def gen_fanin_spec(rng: random.Random) -> dict:
     if rng.random() < 0.3:
         # the collecting step fails its first attempt(s) before it collects: retried invocations then meet stale snapshots
         coll_retry = {"kind": "attempts", "n": rng.randint(3, 4), "wait": 0}
-        coll_script.insert(0, ["fail_until", rng.randint(1, 2), rng.randint(1, 9)])
+        r3 = rng.random() if raise_incomplete else 0.35 + 0.65 * rng.random()
+        if r3 < 0.35:
+            # ... raises when the collection is still incomplete (AddCollectedEvent and StepWorkerFailed in one result list)
+            for a in coll_script:
+                if a[0] == "collect":
+                    while len(a) < 4:
+                        a.append(None if len(a) == 2 else 1)
+                    a.append(["raise", rng.randint(1, 2), rng.randint(1, 9)])
+        elif r3 < 0.7:
+            coll_script.insert(0, ["fail_until", rng.randint(1, 2), rng.randint(1, 9)])
+        else:
+            # ... or fails right AFTER it collected (collect result and failure in one result list)
+            ci = next(i for i, a in enumerate(coll_script) if a[0] == "collect")
+            coll_script.insert(ci + 1, ["fail_until", rng.randint(1, 2), rng.randint(1, 9)])
     coll = {"name": "s03", "accepts": [5, 6] if two_types else [5], "nw": nw, "retry": coll_retry, "script": coll_script}
     sink = {"name": "s05", "accepts": [7], "nw": rng.randint(1, 2), "retry": None,
             "script": ([["gate"]] if rng.random() < 0.5 else []) + [["ret", rng.choice(["none", "stop"])]]}
@@ -334,10 +347,11 @@ def gen_spec(rng: random.Random, **kw: Any) -> dict:  # type: ignore[no-redef]
     r = rng.random()
     if kw.get("family") == "general" or r < 0.55:
         kw.pop("family", None)
+        kw.pop("raise_incomplete", None)
         return _general(rng, **kw)
     fam = kw.get("family")
     if fam == "fanin" or (fam is None and r < 0.70):
-        return gen_fanin_spec(rng)
+        return gen_fanin_spec(rng, raise_incomplete=bool(kw.get("raise_incomplete")))
     if fam == "retry" or (fam is None and r < 0.85):
         return gen_retry_spec(rng)
     return gen_wait_spec(rng)
